@@ -68,6 +68,12 @@ REPRESENTATIVES = [
     ("name-is-also-a-star-parameter", "def h():\n    return 1\n\n\ndef g(*h):\n    h[0]()\n    return 2\n", "h"),
     ("name-is-also-a-double-star-parameter", "def h():\n    return 1\n\n\ndef g(**h):\n    return h\n", "h"),
     ("name-is-also-a-lambda-parameter", "def h():\n    return 1\n\n\ng = lambda h: h()\n", "h"),
+    ("builtin-name-is-a-parameter", "def retry(callable, n):\n    for _ in range(n):\n        callable()\n", "callable"),
+    ("builtin-name-is-a-parameter-2", "def process(items, filter):\n    filter(items)\n", "filter"),
+    ("builtin-name-is-assigned", "len = print\nlen('x')\n", "len"),
+    ("method-has-the-name-of-an-unknown-function", "from starlib import *\n\n\nclass Rocket:\n    def launch(self):\n        return 1\n\n\nlaunch('x')\n", "launch"),
+    ("constructor-in-a-nested-block", "FLAG = True\n\n\nclass Conn:\n    if FLAG:\n        def __init__(self):\n            print('init')\n", "Conn"),
+    ("constructor-is-assigned", "def _setup(self):\n    print('setup')\n\n\nclass A:\n    __init__ = _setup\n", "A"),
     ("name-is-defined-twice", "def h():\n    return 1\n\n\ndef h():\n    print(2)\n", "h"),
     ("name-is-also-a-method", "def h():\n    print(1)\n\n\nclass A:\n    def h(self):\n        return 2\n", "h"),
     ("name-is-also-assigned", "def h():\n    return 1\n\n\nh = print\n", "h"),
